@@ -477,7 +477,12 @@ class RequestHandler(BaseProtocol, Generic[_Request]):
             return
         # parse http messages
         messages: Sequence[_MsgType]
-        if self._payload_parser is None and not self._upgraded:
+        if (self._payload_parser is None and not self._upgraded) or (
+            # An upgrade request with a body, accepted by its handler before
+            # the body was complete: the rest of the body is still HTTP.
+            self._parser is not None
+            and getattr(self._parser, "_pending_upgrade", False)
+        ):
             assert self._parser is not None
             try:
                 messages, upgraded, tail = self._parser.feed_data(data)
@@ -507,7 +512,12 @@ class RequestHandler(BaseProtocol, Generic[_Request]):
 
             self._upgraded = upgraded
             if upgraded and tail:
-                self._message_tail = tail
+                if self._payload_parser is not None:
+                    eof, _ = self._payload_parser.feed_data(tail)
+                    if eof:
+                        self.close()
+                else:
+                    self._message_tail = tail
 
         # no parser, just store
         elif self._payload_parser is None and self._upgraded and data:
